@@ -211,7 +211,7 @@ def main(run, args):
     # ---------- model
     mism = []
     coq_cases = 0
-    if proofs_ok:
+    if model_ready(proofs_ok):
         nsh = min(16, max(1, len(cases)))
         shards = [cases[i::nsh] for i in range(nsh)]
         with ThreadPoolExecutor(max_workers=16) as ex:
